@@ -255,11 +255,11 @@ impl Property for C12 {
     fn workloads(&self, tier: Tier) -> Vec<(String, u64)> {
         vec![
             ("real".into(), (crate::corpus::model_json_files().len() + real_project_files().len()) as u64),
-            ("small".into(), tier.pick(160, 6000)),
-            ("large".into(), tier.pick(50, 2000)),
-            ("monotone".into(), tier.pick(70, 3000)),
-            ("enclosed".into(), tier.pick(40, 1000)),
-            ("unobstructed".into(), tier.pick(40, 1000)),
+            ("small".into(), tier.pick(480, 6000)),
+            ("large".into(), tier.pick(150, 2000)),
+            ("monotone".into(), tier.pick(210, 3000)),
+            ("enclosed".into(), tier.pick(120, 1000)),
+            ("unobstructed".into(), tier.pick(120, 1000)),
         ]
     }
     fn required(&self, tier: Tier) -> Vec<(String, u64)> {
